@@ -50,6 +50,7 @@ func runC20(w *World, r *Report) {
 	// recorded under the source names (C08-R4 / C09-R2) and the recovered tables are loaded into their own kind (C08-R7)
 	defer r.importRules(runC08, "C20-", map[string]bool{"C08-R4": true, "C08-R7": true})
 	defer r.importRules(runC09, "C20-", map[string]bool{"C09-R2": true})
+	defer c20OneRequestOrSkip(w, r)
 	r.Rule("C20-R1", "replication stamp reaches the request", "op functions: request.Base is the msgBase parameter (literal) or UpdateMsgBase(msg.Base, msgBase) dominates the call for pass-through requests; event functions: MsgBaseParam.Base.ReplicateInfo is apiEvent.ReplicateInfo; HandleOpMessagePack stamps IsReplicate=true and MsgTimestamp = EndPositions[last].Timestamp", 24)
 	r.Rule("C20-R2", "dispatch agreement by type", "MsgType_K -> f asserts *msgstream.TMsg embedding milvuspb.KRequest -> exactly one non-probe DataHandler method whose param embeds milvuspb.KRequest; Replicate<X> event -> DataHandler.<X>", 22)
 	r.Rule("C20-R3", "malformed packs rejected before dispatch", "empty pack, pack with != 1 message and unknown message type each return a non-nil error on a branch from which the dispatch call is unreachable", 3)
@@ -832,4 +833,99 @@ func usedByCallInSameBlock(c *ssa.Call) bool {
 		}
 	}
 	return false
+}
+
+// c20OneRequestOrSkip (C20-R9): an op function answers "done" (nil) only after its downstream request was made, or on a
+// branch chosen by the readiness decision (WaitObjReady & co: the object is dropped). A nil return that neither follows
+// the DataHandler call nor depends on a readiness result is a silent skip (a replay guard, a cache of "already done").
+func c20OneRequestOrSkip(w *World, r *Report) {
+	r.Rule("C20-R9", "an operation is answered done only after its request, or skipped by the readiness decision", "every ChannelWriter op function (ctx, *MsgBase, TsMsg) error: each return of a nil error is dominated by the DataHandler call or lies on a branch whose condition derives from a Wait*Ready* result", 10)
+	named := w.Named(pkgWriter, "ChannelWriter")
+	if named == nil {
+		r.Undecided("C20-R9", "ChannelWriter", 0, "anchor not found")
+		return
+	}
+	n := 0
+	for i := 0; i < named.NumMethods(); i++ {
+		m := named.Method(i)
+		fn := w.Prog.FuncValue(m)
+		if fn == nil || len(fn.Blocks) == 0 {
+			continue
+		}
+		sg := fn.Signature
+		if sg.Params().Len() != 3 || sg.Results().Len() != 1 || !isErrorType(sg.Results().At(0).Type()) {
+			continue
+		}
+		if !strings.HasSuffix(sg.Params().At(1).Type().String(), "commonpb.MsgBase") || !strings.HasSuffix(sg.Params().At(2).Type().String(), "msgstream.TsMsg") {
+			continue
+		}
+		var reqs []ssa.Instruction
+		eachInstrDeep(fn, func(g *ssa.Function, in ssa.Instruction) {
+			if c, ok := in.(*ssa.Call); ok && c.Common().IsInvoke() {
+				if rv := c.Common().Value; rv != nil && strings.HasSuffix(w.accessPath(rv), ".dataHandler") {
+					reqs = append(reqs, c)
+				}
+			}
+		})
+		if len(reqs) == 0 {
+			continue
+		}
+		k := 0
+		eachInstr(fn, func(in ssa.Instruction) {
+			ret, ok := in.(*ssa.Return)
+			if !ok || len(ret.Results) != 1 || !isNilConst(returnedValue(ret, 0)) {
+				return
+			}
+			n++
+			k++
+			cons := fmt.Sprintf("(*ChannelWriter).%s | nil return #%d", m.Name(), k)
+			for _, q := range reqs {
+				if q.Parent() == fn && instrDominates(q, ret) {
+					r.OK("C20-R9", cons, ret.Pos(), "after the downstream request")
+					return
+				}
+				if q.Parent() != fn {
+					// the request is made inside a retry / callback literal: the call that runs the literal dominates
+					if site := syncCallbackSite(q.Parent()); site != nil && site.Parent() == fn && instrDominates(site, ret) {
+						r.OK("C20-R9", cons, ret.Pos(), "after the downstream request (made in a callback)")
+						return
+					}
+				}
+			}
+			// a readiness decision selects this return
+			for _, b := range fn.Blocks {
+				cond, _, _, isIf := ifSuccs(b)
+				if !isIf || !(b.Dominates(ret.Block())) || b == ret.Block() {
+					continue
+				}
+				for _, x := range backSlice(cond, SliceOpts{MaxDepth: 6}) {
+					if c, isC := x.(*ssa.Call); isC {
+						if nm := callSym(c.Common()).name; strings.HasPrefix(nm, "Wait") && strings.Contains(nm, "Ready") {
+							r.OK("C20-R9", cons, ret.Pos(), "skip selected by "+nm)
+							return
+						}
+						// every member of the request's list was skipped by the readiness decision taken in the loop
+						if bi, isB := c.Call.Value.(*ssa.Builtin); isB && bi.Name() == "len" {
+							inLoop := false
+							eachInstr(fn, func(in2 ssa.Instruction) {
+								if c2, ok2 := in2.(*ssa.Call); ok2 && loopHeaderOf(c2.Block()) != nil {
+									if nm := callSym(c2.Common()).name; strings.HasPrefix(nm, "Wait") && strings.Contains(nm, "Ready") {
+										inLoop = true
+									}
+								}
+							})
+							if inLoop {
+								r.OK("C20-R9", cons, ret.Pos(), "the list left by the per-member readiness decisions is empty")
+								return
+							}
+						}
+					}
+				}
+			}
+			r.Fail("C20-R9", cons, ret.Pos(), "the operation is answered as done although no downstream request was made and no readiness decision selected the skip (a replay guard or an 'already done' table): a source operation is turned into zero downstream requests, e.g. the re-creation of a role that was dropped in between")
+		})
+	}
+	if n == 0 {
+		r.Undecided("C20-R9", "ChannelWriter op functions", 0, "no op function with a DataHandler call found")
+	}
 }
